@@ -218,12 +218,21 @@ def ok_regex(r):
     return True
 
 
-def rand_def(rng, name, nsets=None, ctx_p=0.0, eof_p=0.1, kinds=None, maxrules=4, depth=2, tags=()):
+def rand_def(rng, name, nsets=None, ctx_p=0.0, eof_p=0.1, kinds=None, maxrules=4, depth=2, tags=(), empty_p=0.0):
     nsets = nsets or rng.choice([1, 1, 2, 2, 3])
     names = ['Init'] + ['R%d' % i for i in range(1, nsets)]
+    empty = set()
+    if nsets > 1 and rng.random() < empty_p:
+        # an empty rule set (`rule E {}`) somewhere after Init; it can be switched to like any other
+        pos = rng.randrange(1, nsets + 1)
+        names.insert(pos, 'E')
+        empty.add('E')
     sets = []
     kinds = kinds or ['tok', 'tok', 'ret', 'skip', 'cont', 'rcont', 'sw', 'swret']
     for si, n in enumerate(names):
+        if n in empty:
+            sets.append((n, []))
+            continue
         nr = rng.randrange(1 if si else 2, maxrules + 1)
         rules = []
         for _ in range(nr):
